@@ -297,6 +297,10 @@ pub trait Check: Sync + Send {
     fn rlimit_as(&self) -> Option<u64> {
         None
     }
+    /// names the input class of an item whose worker died (key suffix) and describes it
+    fn describe_item(&self, _idx: u64, _tier: Tier) -> (String, Value) {
+        (String::new(), json!(null))
+    }
     /// extra key/values for the coverage object
     fn coverage_extra(&self, _tier: Tier, _acc: &Acc) -> Value {
         json!({})
@@ -412,6 +416,23 @@ pub fn n_workers() -> usize {
         })
 }
 
+/// Workers' stderr (abort messages of the code under test, mostly) goes to a log file.
+fn worker_stderr(id: &str, w: usize) -> Stdio {
+    if std::env::var("VERIF_VERBOSE").is_ok() {
+        return Stdio::inherit();
+    }
+    let dir = verif_dir().join("target");
+    let _ = std::fs::create_dir_all(&dir);
+    match std::fs::OpenOptions::new()
+        .create(true)
+        .append(true)
+        .open(dir.join(format!("worker-{}-{}.log", id, w)))
+    {
+        Ok(f) => Stdio::from(f),
+        Err(_) => Stdio::null(),
+    }
+}
+
 struct WorkerProc {
     child: std::process::Child,
     cin: std::process::ChildStdin,
@@ -433,7 +454,7 @@ impl WorkerProc {
             .arg(w.to_string())
             .stdin(Stdio::piped())
             .stdout(Stdio::piped())
-            .stderr(Stdio::inherit())
+            .stderr(worker_stderr(id, w))
             .spawn()
             .expect("spawn worker");
         let cin = child.stdin.take().unwrap();
@@ -494,6 +515,7 @@ pub fn coordinate(check: &dyn Check, tier: Tier) -> Outcome {
             .and_then(|s| s.parse().ok())
             .unwrap_or_else(|| check.wall_budget(tier)),
     );
+    let crashed: Arc<Mutex<Vec<(u64, String)>>> = Arc::new(Mutex::new(Vec::new()));
     let exe = std::env::current_exe().expect("current_exe");
     let workers = n_workers().min(((n + chunk - 1) / chunk).max(1) as usize);
     let mut handles = Vec::new();
@@ -505,6 +527,7 @@ pub fn coordinate(check: &dyn Check, tier: Tier) -> Outcome {
         let exe = exe.clone();
         let id = check.id().to_string();
         let crash_is_violation = check.crash_is_violation();
+        let crashed = crashed.clone();
         handles.push(std::thread::spawn(move || {
             let mut wp = WorkerProc::spawn(&exe, &id, tier, w);
             loop {
@@ -539,11 +562,7 @@ pub fn coordinate(check: &dyn Check, tier: Tier) -> Outcome {
                         );
                         if crash_is_violation {
                             let item = current.unwrap_or(a);
-                            total.lock().unwrap().violation(
-                                "process-abort",
-                                what,
-                                json!({"item": item, "kind": "crash"}),
-                            );
+                            crashed.lock().unwrap().push((item, what));
                             done_items.fetch_add(item + 1 - a, Ordering::SeqCst);
                             if item + 1 < b {
                                 redo.lock().unwrap().push((item + 1, b));
@@ -562,7 +581,16 @@ pub fn coordinate(check: &dyn Check, tier: Tier) -> Outcome {
     for h in handles {
         let _ = h.join();
     }
-    let acc = std::mem::take(&mut *total.lock().unwrap());
+    let mut acc = std::mem::take(&mut *total.lock().unwrap());
+    for (item, what) in crashed.lock().unwrap().iter() {
+        let (class, desc) = check.describe_item(*item, tier);
+        acc.evals += 1;
+        acc.violation(
+            &format!("process-abort:{}", class),
+            format!("{}; scenario: {}", what, desc),
+            json!({"item": item, "kind": "crash", "tier": tier.name(), "class": class, "scenario": desc}),
+        );
+    }
     Outcome {
         acc,
         wall_s: t0.elapsed().as_secs_f64(),
